@@ -5,7 +5,7 @@ import os
 import sys
 import traceback
 
-from .core import AnalysisError, Check, Repo, finish
+from .core import VERIF, AnalysisError, Check, Repo, finish
 
 
 def main(argv=None):
@@ -28,6 +28,27 @@ def main(argv=None):
         repo = Repo(args.repo)
         chk = Check(pid, repo, args.tier, seed)
         mod.run(chk)
+        if args.tier == "thorough" and not args.replay and args.repo is None and not os.environ.get("CGSTATIC_NO_SELFTEST"):
+            # test the checker both ways on scratch copies (tests the *checker*, never decides the property)
+            import subprocess
+            import tempfile
+
+            with tempfile.NamedTemporaryFile(suffix=".json", delete=False) as tf:
+                tmpjson = tf.name
+            try:
+                env = dict(os.environ, CGSTATIC_NO_SELFTEST="1", VERIF_TIER="quick")
+                p = subprocess.run([sys.executable, str(VERIF / "selftest" / "run.py"), pid, "--json", tmpjson], capture_output=True, text=True, env=env, cwd=str(VERIF))
+                res = json.load(open(tmpjson)) if os.path.getsize(tmpjson) else None
+            finally:
+                os.unlink(tmpjson)
+            if res is not None:
+                chk.extra["selftest"] = {"must_fire": f"{res['fire_ok']}/{res['fire_total']}", "must_silent": f"{res['silent_ok']}/{res['silent_total']}",
+                                         "failures": [f["id"] for f in res["failures"]]}
+                print(f"[{pid}] selftest of the checker on scratch variants: must_fire {res['fire_ok']}/{res['fire_total']}, must_silent {res['silent_ok']}/{res['silent_total']}")
+                bad_silent = [f for f in res["failures"] if f["expect"] == "silent"]
+                if bad_silent:
+                    print(f"ANALYSIS-ERROR property={pid} the checker raises an alarm on behaviour-preserving variant(s) {[f['id'] for f in bad_silent]} - checker bug, run blocked")
+                    return 2
         flt = None
         if args.replay:
             rp = json.load(open(args.replay))
